@@ -666,7 +666,11 @@ def real_pipeline(item: dict) -> dict:
         if any("f" in n and 'import "/' in n["f"] for n in w["vfs"]["nodes"].values()):
             return res
         env = dict(os.environ, PYTHONPATH=repo_dir(), PYTHONDONTWRITEBYTECODE="1", PYTHONWARNINGS="ignore")
-        p = subprocess.run([sys.executable, "-m", "explorerscript.cli.compile"] + argv, cwd=td + "/proj", env=env, capture_output=True, text=True, timeout=120)
+        try:
+            p = subprocess.run([sys.executable, "-m", "explorerscript.cli.compile"] + argv, cwd=td + "/proj", env=env, capture_output=True, text=True, timeout=120)
+        except subprocess.TimeoutExpired:
+            res["too_slow"] = 1
+            return res
         res["validated"] += 1
         if p.returncode != sim["exit"] or (p.returncode == 0 and p.stdout != sim["stdout"]):
             res["mismatch"].append({"run_seed": item["run_seed"], "real_exit": p.returncode, "sim_exit": sim["exit"], "real_stderr": p.stderr[-300:]})
@@ -676,7 +680,13 @@ def real_pipeline(item: dict) -> dict:
             v2 = Vfs.load(w["vfs"])
             v2.write("/proj/out.json", p.stdout)
             sim2 = run_cli("explorerscript.cli.decompile", ["out.json"], v2.dump())
-            p2 = subprocess.run([sys.executable, "-m", "explorerscript.cli.decompile", "out.json"], cwd=td + "/proj", env=env, capture_output=True, text=True, timeout=120)
+            try:
+                p2 = subprocess.run([sys.executable, "-m", "explorerscript.cli.decompile", "out.json"], cwd=td + "/proj", env=env, capture_output=True, text=True, timeout=120)
+            except subprocess.TimeoutExpired:
+                # the real process runs with the repository's recursion limit (10000): the writer recursion pathology of
+                # DESIGN.md 2.2 takes minutes there; nothing to compare
+                res["too_slow"] = 1
+                return res
             res["validated"] += 1
             if p2.returncode != sim2["exit"] or (p2.returncode == 0 and p2.stdout != sim2["stdout"]):
                 res["mismatch"].append({"run_seed": item["run_seed"], "cmd": "decompile", "real_exit": p2.returncode, "sim_exit": sim2["exit"], "real_stderr": p2.stderr[-300:]})
@@ -721,6 +731,7 @@ def check(rep, tier: str, master: int, only_idx=None) -> None:
             continue
         if it.get("real"):
             agg["real_validated"] += r["validated"]
+            agg["real_too_slow_skipped"] = agg.get("real_too_slow_skipped", 0) + r.get("too_slow", 0)
             for mm in r["mismatch"]:
                 rep.harness_error(f"in-process CLI shell disagrees with a real process: {mm}")
             continue
